@@ -553,7 +553,9 @@ func (e *env) registryOps(st Step) (res Result) {
 		res.Ret = outs
 		return
 	}
-	// concurrent duplicate registration: exactly one must win; a Get after both must return the winner
+	// phase A - concurrent duplicate registration: exactly one must win; a Get after all must return the winner.
+	// phase B - registrations, look-ups and removals of one name overlap (material for the race detector; a
+	// look-up must return either nothing or one of the services registered under that name).
 	anomalies := 0
 	rounds := st.N
 	if rounds == 0 {
@@ -589,6 +591,41 @@ func (e *env) registryOps(st Step) (res Result) {
 			anomalies++
 		}
 		codec.Remove(name)
+		if r%8 == 0 {
+			// phase B
+			mine := map[any]bool{}
+			for t := range svcs {
+				mine[svcs[t]] = true
+			}
+			var bad int32
+			var mu sync.Mutex
+			start2 := make(chan struct{})
+			for t := 0; t < st.Threads; t++ {
+				wg.Add(1)
+				go func(t int) {
+					defer wg.Done()
+					<-start2
+					for k := 0; k < 4; k++ {
+						switch (t + k) % 3 {
+						case 0:
+							codec.Registry(svcs[t])
+						case 1:
+							if v, ok := codec.Get(name); ok && !mine[v] {
+								mu.Lock()
+								bad++
+								mu.Unlock()
+							}
+						case 2:
+							codec.Remove(name)
+						}
+					}
+				}(t)
+			}
+			close(start2)
+			wg.Wait()
+			codec.Remove(name)
+			anomalies += int(bad)
+		}
 	}
 	res.Ret = map[string]any{"rounds": rounds, "anomalies": anomalies}
 	return
